@@ -190,6 +190,61 @@ Proof.
   eapply row_major_inj; eauto.
 Qed.
 
+(* ---------- Variable::index_to_int and static_cast<int>(int64_t) ---------- *)
+(* declared extents are C++ ints *)
+Definition dims_fit (dims : list Z) : Prop := Forall (fun d => d <= two31) dims.
+
+Lemma index_to_int_spec i j : index_to_int i = Some j <-> int_range i /\ j = i.
+Proof.
+  unfold index_to_int, int_range.
+  destruct (Z.ltb_spec i (- two31)) as [A|A], (Z.leb_spec two31 i) as [B|B]; cbn [orb]; split; intros G;
+    try discriminate; try (destruct G as [? ->]; try lia; reflexivity).
+  injection G as <-. split; [lia|reflexivity].
+Qed.
+
+Lemma index_to_int_none i : index_to_int i = None <-> ~ int_range i.
+Proof.
+  destruct (index_to_int i) as [j|] eqn:E.
+  - apply index_to_int_spec in E. split; [discriminate|tauto].
+  - split; [|reflexivity]. intros _ H. assert (index_to_int i = Some i) by (apply index_to_int_spec; auto). congruence.
+Qed.
+
+Lemma all_to_int_spec idxs : forall l, all_to_int idxs = Some l <-> Forall int_range idxs /\ l = idxs.
+Proof.
+  induction idxs as [|i r IH]; intros l; cbn [all_to_int].
+  - split; [intros H; injection H as <-; split; [constructor|reflexivity]|intros [_ ->]; reflexivity].
+  - destruct (index_to_int i) as [i'|] eqn:E.
+    + apply index_to_int_spec in E. destruct E as [Hi ->].
+      destruct (all_to_int r) as [r'|] eqn:F.
+      * destruct (proj1 (IH r') eq_refl) as [Hr ->].
+        split; [intros H; injection H as <-; split; [constructor; assumption|reflexivity]|intros [_ ->]; reflexivity].
+      * split; [discriminate|]. intros [H ->]. inversion H; subst.
+        assert (G : @None (list Z) = Some r) by (apply IH; auto). discriminate G.
+    + apply index_to_int_none in E. split; [discriminate|]. intros [H _]. inversion H; subst. contradiction.
+Qed.
+
+Lemma all_to_int_none idxs : all_to_int idxs = None <-> ~ Forall int_range idxs.
+Proof.
+  destruct (all_to_int idxs) as [l|] eqn:E.
+  - apply all_to_int_spec in E. split; [discriminate|tauto].
+  - split; [|reflexivity]. intros _ H. assert (all_to_int idxs = Some idxs) by (apply all_to_int_spec; auto). congruence.
+Qed.
+
+Lemma in_range_fits dims : forall idxs, dims_fit dims -> in_range dims idxs -> Forall int_range idxs.
+Proof.
+  induction dims as [|d ds IH]; intros [|i is_] Hd H; cbn [in_range] in H; try tauto; try (constructor; fail).
+  inversion Hd; subst. destruct H as [Hi Hr]. constructor; [unfold int_range, two31 in *; lia|]. apply IH; auto.
+Qed.
+
+Lemma dims_fit_of_size dims : positive_dims dims -> size dims < two31 -> dims_fit dims.
+Proof.
+  induction dims as [|d ds IH]; intros Hp Hs; [constructor|].
+  assert (Hd : 0 < d) by (apply Hp; left; reflexivity).
+  assert (Hds : positive_dims ds) by (intros x Hx; apply Hp; right; exact Hx).
+  pose proof (size_pos _ Hds) as P. cbn [size] in Hs.
+  constructor; [nia|]. apply IH; [exact Hds|nia].
+Qed.
+
 (* ---------- static_cast<int>(int64_t) ---------- *)
 Lemma narrow32_id i : int_range i -> narrow32 i = i.
 Proof. unfold int_range, narrow32, two31, two32. intros H. rewrite Z.mod_small by lia. lia. Qed.
@@ -207,8 +262,14 @@ Proof. unfold narrow32, two32. replace (i + k * 4294967296 + two31) with (i + tw
 Lemma map_narrow32_id idxs : Forall int_range idxs -> map narrow32 idxs = idxs.
 Proof. induction 1 as [|i l Hi _ IH]; cbn [map]; [reflexivity|]. rewrite narrow32_id, IH; auto. Qed.
 
-Lemma map_conv_id b idxs : Forall int_range idxs -> map (conv b) idxs = idxs.
-Proof. destruct b; cbn [conv]; [apply map_narrow32_id|]. intros _. apply map_id. Qed.
+Lemma conv_all_id b idxs : Forall int_range idxs -> conv_all b idxs = Some idxs.
+Proof. destruct b; cbn [conv_all]; [|reflexivity]. intros H. apply all_to_int_spec. auto. Qed.
+
+Lemma conv_all_some b idxs l : conv_all b idxs = Some l -> l = idxs.
+Proof. destruct b; cbn [conv_all]; [|congruence]. intros H. apply all_to_int_spec in H. tauto. Qed.
+
+Lemma conv_all_none b idxs : conv_all b idxs = None -> ~ Forall int_range idxs.
+Proof. destruct b; cbn [conv_all]; [|discriminate]. apply all_to_int_none. Qed.
 
 Lemma in_range_int dims : forall idxs, Forall int_range dims -> in_range dims idxs -> Forall int_range idxs.
 Proof.
